@@ -64,3 +64,8 @@ CHECKS["C16"] = (
     "Histories of setter calls, applies, refreshes, self-clean, beep toggles and device-side changes run against a model device with a vendor-layout property store under generated capability profiles. After every apply the device's write log must contain exactly one 0xB0 with exactly the pending ids under the advertised id and vendor encoding (or none when nothing is pending); after every refresh the attributes must equal the device's store; at most one breeze mode is ever true.",
     "'Legacy both' devices are assumed to keep the two louver modes exclusive; setters are called only where supports_* is true.",
     "DESIGN.md 3/C16")
+CHECKS["C01"] = (
+    "exploration", "end-to-end Hypothesis generation (state x protocol version x credentials x device id x delivery schedule x unsolicited frames) with the model device as oracle in both directions",
+    "The unmodified library runs through every layer against an independently written V2/V3 model device on the simulated network: apply direction (device state decoded by the vendor-layout decoder must equal the applied state, untouched fields unchanged, nothing rejected, right device id on every packet) and read-back direction by a fresh client on a fresh connection. Delivery schedules cut V3 streams anywhere (incl. byte-by-byte), coalesce packets and insert duplicate/unsolicited frames. One recorded finding (non-reply frame ends the exchange) is classified by re-running the failing case with simultaneous delivery and excluded from violation reports.",
+    "V2 replies are delivered one packet per segment (V2 has no reassembly by design). Devices answer within the 2 s read timeout in this property (lateness is C08).",
+    "DESIGN.md 3/C01")
